@@ -6,6 +6,7 @@ From Verif Require Import Base.Bytes Base.Val.
 From Verif Require Cobs.Model.
 From Verif Require Rule.Model.
 From Verif Require Store.Model Store.Check Store.CheckConc.
+From Verif Require Sync.Model.
 
 From Verif Require Sched.Model.
 
@@ -15,6 +16,7 @@ From Verif Require Wire.Model.
 Definition dispatch (area : N) (v : val) : N :=
   match area with
   | 1%N => Store.Check.check_c01 v
+  | 2%N => Sync.Model.check_c02 v
   | 3%N => Store.Check.check_c03 v
   | 4%N => Store.CheckConc.check_c04 v
   | 5%N => Store.Check.check_c05 v
